@@ -26,7 +26,7 @@ from hl7apy.exceptions import HL7apyException
 import segcorr
 
 STRICT, TOLERANT = 1, 2
-P61 = 2305843009213693921          # a 61-bit prime (not 2**61-1: base 256 has a short period there)
+P61 = 2 ** 61 - 1                  # folding modulo a Mersenne number is cheap inside Coq
 
 CLS_LETTER = {'Segment': 'S', 'Field': 'F', 'Component': 'C', 'SubComponent': 's'}
 
@@ -452,8 +452,8 @@ class Gen(object):
             if owners:
                 return ['p', rng.choice(owners), self.style(x, row)]
         if r < .97:
-            dt = row[1][2] if len(row[1]) > 2 else None
-            if dt in CANON and self.lib.is_base_datatype(dt):
+            dt = row[1][2] if row[1] is not None and len(row[1]) > 2 else None
+            if (dt in TEXTUAL or dt in ('NM', 'SI')) and self.lib.is_base_datatype(dt):
                 return ['d', dt, rng.choice(leaf_pool(dt))]
             return ['d', 'ST', 'z']
         return ['t', self.text_for(row, d, x.validation_level)]
@@ -468,7 +468,7 @@ class Gen(object):
         parents = [i for i, y in enumerate(I) if isinstance(y, (Segment, Field, Component))]
         segs = [i for i, y in enumerate(I) if isinstance(y, Segment)]
         lvl = self.lvl if rng.random() < .9 else self.other_lvl()
-        if not segs or (len(segs) < 2 and rng.random() < .3):
+        if not segs or (len(segs) < 2 and rng.random() < .12):
             return ['newseg', self.lvl if rng.random() < .95 else self.other_lvl(), self.segname]
         # the target: mostly a segment in the 'segment' profile, anything in the 'deep' profile
         if self.profile == 'segment' and rng.random() < .8:
@@ -476,24 +476,38 @@ class Gen(object):
         else:
             x = rng.choice(parents)
         X = I[x]
-        rows = self.names_for(X)
-        row = rng.choice(rows) if rows else ('FOO_1', None, None)
-        name = self.style(X, row) if rng.random() < .93 else self.bad_name(X)
-        i = rng.choice([0, 0, 1, 1, 2, 3])
         kind = rng.choices(
             ['setattr', 'setindex', 'setlistindex', 'add', 'new', 'addhelper', 'delattr', 'delindex', 'dellistindex',
              'remove', 'grab', 'grablist', 'read', 'readvalue', 'len', 'lenlist', 'toer7', 'setvaluechain', 'setvalue',
              'chainset', 'setdatatype', 'setparent', 'setvaluedt'],
-            [18, 8, 4, 8, 8, 5, 5, 4, 2,
-             3, 6, 3, 2, 5, 2, 2, 1, 5, 4,
-             7, 1.5, 1.5, 1])[0]
+            [20, 9, 4, 8, 7, 5, 4, 4, 2,
+             3, 7, 4, 2, 5, 2, 1.5, 1, 6, 4,
+             9, 1.5, 1.5, 1.5])[0]
+        rows = self.names_for(X)
+        row = rng.choice(rows) if rows else ('FOO_1', None, None)
+        # prefer names the element already has children for (collisions are where the bugs are)
+        have = [c.name for c in X.children.list if c.name]
+        p_have = .9 if kind in ('grab', 'delindex', 'delattr') else .5
+        if have and rng.random() < p_have:
+            nm = rng.choice(have)
+            for cand in rows + self.child_rows(X):
+                if cand[0] == nm:
+                    row = cand
+                    break
+        name = self.style(X, row) if rng.random() < .93 else self.bad_name(X)
+        n_have = len(X.children.indexes.get(row[0], []))
+        if n_have and rng.random() < .7:
+            i = rng.randrange(0, n_have)
+        else:
+            i = rng.choice([n_have, n_have, n_have + 1, 0])
         d = self.depth_of(X)
         if kind == 'setattr':
             return ['setattr', x, [name], self.value_for(X, row)]
         if kind == 'setindex':
             return ['setindex', x, [name], i, self.value_for(X, row)]
         if kind == 'setlistindex':
-            j = rng.randrange(0, len(X.children) + 1)
+            n = len(X.children)
+            j = rng.randrange(0, n) if n and rng.random() < .85 else n
             if j < len(X.children):
                 # a value that suits the child actually stored at that position
                 nm = X.children[j].name
@@ -529,16 +543,18 @@ class Gen(object):
         if kind == 'delindex':
             return ['delindex', x, [name], i]
         if kind == 'dellistindex':
-            return ['dellistindex', x, rng.randrange(0, len(X.children) + 1)]
+            n = len(X.children)
+            return ['dellistindex', x, rng.randrange(0, n) if n and rng.random() < .85 else n]
         if kind == 'remove':
             cands = [j for j, y in enumerate(I) if y._parent is X or rng.random() < .1]
             if not cands:
                 return ['lenlist', x]
             return ['remove', x, rng.choice(cands)]
         if kind == 'grab':
-            return ['grab', x, [name], rng.choice([0, 0, 1, 2])]
+            return ['grab', x, [name], i]
         if kind == 'grablist':
-            return ['grablist', x, rng.randrange(0, len(X.children) + 1)]
+            n = len(X.children)
+            return ['grablist', x, rng.randrange(0, n) if n and rng.random() < .85 else n]
         if kind == 'lenlist':
             return ['lenlist', x]
         if kind == 'toer7':
@@ -733,21 +749,71 @@ PRELUDE = '''From Coq Require Import List NArith ZArith Init.Byte.
 From HL7 Require Import Lib.Str Model.Ec Model.Result Model.Ref Model.Tree Model.Leaf Model.Heap Gen.Params.
 From HL7 Require Gen.%(mod)s.
 Import ListNotations. Open Scope bs_scope.
-Definition t := Gen.%(mod)s.tables.
+(* the generated tables with the entries these histories use moved to the front of each association
+   list (a permutation of lists with unique keys: every lookup gives the same answer, sooner) *)
+Definition reorder {B} (ps : list str) (l : list (str * B)) : list (str * B) :=
+  let (a, b) := partition (fun kv => existsb (fun p => bstarts p (fst kv)) ps) l in a ++ b.
+Definition retable (sp fp cp dp : list str) (t : tables) : tables :=
+  mk_tables (t_version t) (reorder sp (t_segments t)) (reorder fp (t_fields t)) (reorder cp (t_components t))
+            (reorder dp (t_structs t)) (t_messages t) (t_groups t) (t_base_datatypes t).
+Definition t0 := Gen.%(mod)s.tables.
+Definition tt := retable %(sp)s %(fp)s %(cp)s %(dp)s t0.
 Definition v : str := %(v)s.
 Definition e : ec := %(ec)s.
 Definition lenc (l : level) := leaf_enc v l e.
-Definition check (c : list op * list N) : option nat := run_check t e lenc init_rstate (fst c) (snd c) 0.
-Fixpoint failing (n : nat) (l : list (list op * list N)) : list nat :=
+Definition check (t : tables) (c : list op * list N) : option nat := run_check t e lenc init_rstate (fst c) (snd c) 0.
+Fixpoint failing (t : tables) (n : nat) (l : list (list op * list N)) : list nat :=
   match l with
   | [] => []
-  | c :: r => (match check c with Some k => [n; k] | None => [] end) ++ failing (S n) r
+  | c :: r => (match check t c with Some k => [n; k] | None => [] end) ++ failing t (S n) r
   end.
 '''
 
 
-def prelude(version):
-    return PRELUDE % {'mod': segcorr.modname(version), 'v': coq_str(version), 'ec': segcorr.ec_term(ec_for(version))}
+def datatype_closure(lib, dts):
+    seen = []
+    todo = list(dts)
+    while todo:
+        d = todo.pop()
+        if d in seen or d is None:
+            continue
+        seen.append(d)
+        for row in lib.DATATYPES_STRUCTS.get(d, ()):
+            ref = row[1]
+            if len(ref) > 2 and ref[2] not in seen:
+                todo.append(ref[2])
+    return sorted(seen)
+
+
+def prefixes_for(version, seg_names):
+    lib = hl7apy.load_library(version)
+    segs = sorted(set(n.upper() for n in seg_names))
+    dts = []
+    for sname in segs:
+        ref = lib.SEGMENTS.get(sname)
+        if ref and len(ref) > 1:
+            for row in ref[1]:
+                r = row[1]
+                if len(r) > 2:
+                    dts.append(r[2])
+    dts = datatype_closure(lib, dts + ['ST', 'CX', 'HD', 'CE', 'XPN', 'ID'])
+    return segs, [n + '_' for n in segs], [d + '_' for d in dts], dts
+
+
+def prelude(version, seg_names=('PID', 'OBX', 'QPD', 'NK1', 'ZXX')):
+    sp, fp, cp, dp = prefixes_for(version, seg_names)
+    cl = lambda l: '[' + '; '.join(coq_str(x) for x in l) + ']'
+    return PRELUDE % {'mod': segcorr.modname(version), 'v': coq_str(version), 'ec': segcorr.ec_term(ec_for(version)),
+                      'sp': cl(sp), 'fp': cl(fp), 'cp': cl(cp), 'dp': cl(dp)}
+
+
+def seg_names_of(cases):
+    out = set()
+    for ops, _ in cases:
+        for o in ops:
+            if o[0] == 'newseg':
+                out.add(o[2])
+    return sorted(out)
 
 
 def case_text(ops, obs):
@@ -762,10 +828,10 @@ def run_model(run, version, cases, tag, per_file=40, component='heap'):
     shards = shard(usable, per_file)
     files = []
     for k, sh in enumerate(shards):
-        L = [prelude(version), 'Definition cases : list (list op * list N) := [']
+        L = [prelude(version, seg_names_of([c for _, c in sh])), 'Definition cases : list (list op * list N) := [']
         L.append(';\n'.join(case_text(ops, obs) for _, (ops, obs) in sh))
         L.append('].')
-        L.append('Eval vm_compute in failing 0 cases.')
+        L.append('Eval vm_compute in (let t := tt in failing t 0 cases).')
         files.append(('%s_%d_%d' % (tag, os.getpid(), k), '\n'.join(L) + '\n'))
     results = coq_eval_many(files, timeout=1500)
     evaluated = steps = 0
@@ -787,8 +853,8 @@ def run_model(run, version, cases, tag, per_file=40, component='heap'):
 def model_observations(version, ops, upto=None):
     """the model's observation strings for a history (diagnostics for a disagreement)"""
     ops = ops if upto is None else ops[:upto + 1]
-    text = prelude(version) + 'Definition ops : list op := [%s].\n' % ';\n  '.join(coq_op(o) for o in ops)
-    text += 'Eval vm_compute in map BS (run_observe t e lenc init_rstate ops).\n'
+    text = prelude(version, seg_names_of([(ops, None)])) + 'Definition ops : list op := [%s].\n' % ';\n  '.join(coq_op(o) for o in ops)
+    text += 'Eval vm_compute in map BS (run_observe tt e lenc init_rstate ops).\n'
     rc, out = coq_eval('heapdiag_%d' % os.getpid(), text, timeout=600)
     if rc != 0:
         return None, out
